@@ -27,8 +27,12 @@ ResultFails(r, ev) ==
     \cup (IF ev.positions_same THEN {} ELSE {"configurations_depend_on_chunking_or_mode"})
     \cup (IF ev.shape_ok THEN {} ELSE {"shape"})
     [] ev.kind = "c04" ->
-         (IF ev.vacuum /\ ev.band_limited /\ ev.conserved_ppb > Tol THEN {"vacuum_preserves_band_limited_intensity"} ELSE {})
-    \cup (IF ev.reverse_ppb <= Tol THEN {} ELSE {"propagation_not_reversible"})
+         \* a double-precision run is held to 1e-7 (observed 1e-15): the second-order correction of the propagator is a 1e-5 effect
+         LET tol == IF ev.double THEN 100 ELSE Tol IN
+         (IF ev.vacuum /\ ev.band_limited /\ ev.conserved_ppb > tol THEN {"vacuum_preserves_band_limited_intensity"} ELSE {})
+    \cup (IF ev.reverse_ppb <= tol THEN {} ELSE {"propagation_not_reversible"})
+    \* in-place propagation of a second, fainter wave by a propagator object that has already propagated another wave of the same shape
+    \cup (IF ev.reuse_gain_ppb <= tol THEN {} ELSE {"propagation_created_intensity"})
     [] OTHER -> {"unknown_result"}
 
 TInit == tid \in 1..Len(Traces) /\ l = 1 /\ rs = InitRun /\ bad = << >>
